@@ -422,7 +422,8 @@ class Check(core.PropertyCheck):
         return {
             "udp": {**B, "Mode": "flow", "Trs": frozenset({"udp"}), "Ups": frozenset({True, False}),
                     "MaxQ": 2 if q else 3, "MaxR": 1 if q else 2, "MaxBad": 1},
-            "tcp": {**B, "Mode": "flow", "Trs": frozenset({"tcp"}), "Ups": frozenset({True}), "MaxQ": 2, "MaxR": 1,
+            "tcp": {**B, "Mode": "flow", "Ids": frozenset({1}) if q else frozenset({1, 2}),
+                    "Trs": frozenset({"tcp"}), "Ups": frozenset({True}), "MaxQ": 2, "MaxR": 1,
                     "MaxBad": 1, "BadKinds": frozenset({"zero"}), "Qs": frozenset({"A"}) if q else frozenset({"A", "B"}),
                     "Policies": frozenset({"none"}) if q else frozenset({"none", "respond"}), "MaxSeg": 3 if q else 16},
             "seg": {**B, "Mode": "seg", "Ids": frozenset({1, 2, 3}), "Trs": frozenset({"tcp"}), "Ups": frozenset({True}),
@@ -454,7 +455,7 @@ class Check(core.PropertyCheck):
 
     def scenarios(self, ctx, models):
         rng = random.Random(ctx.seed + 27)
-        nwalk = {"udp": 1000, "tcp": 600, "seg": 500} if ctx.quick else {"udp": 20000, "tcp": 12000, "seg": 6000}
+        nwalk = {"udp": 600, "tcp": 400, "seg": 400} if ctx.quick else {"udp": 20000, "tcp": 12000, "seg": 6000}
         seen = set()
 
         def emit(b, source):
